@@ -1477,8 +1477,11 @@ func TestVerifC10(t *testing.T) {
 		}
 		c10RunProgram(t, o, g, p, routes, optsL)
 		o.stat("programs", 1)
-		for k := 0; k < 4; k++ {
+		for k := 0; k < 3; k++ {
 			c10CondOracle(t, o, g)
+		}
+		for k := 0; k < 2; k++ {
+			c10EditScenario(t, o, g)
 		}
 		{
 			kind := g.r.intn(3)
@@ -1798,16 +1801,48 @@ func c10DocVerdict(opt int, perPattern []bool) bool {
 	return anyM
 }
 
+// normalised text of a configured pattern (what Remove compares): a plain value is anchored
+func c10NormPattern(kind int, p string) string {
+	body, pre := p, ""
+	if kind == 1 {
+		k := strings.IndexByte(p, ':')
+		pre, body = strings.ToLower(p[:k+1]), p[k+1:]
+	}
+	plain := c10rePlainComm
+	if kind == 2 {
+		plain = c10rePlainLarge
+	}
+	if plain.MatchString(body) {
+		body = "^" + body + "$"
+	}
+	return pre + body
+}
+
+func c10MkRegexSet(t *testing.T, kind int, pats []string) DefinedSet {
+	var d DefinedSet
+	var err error
+	l := append([]string{}, pats...)
+	switch kind {
+	case 0:
+		d, err = NewCommunitySet(oc.CommunitySet{CommunitySetName: "s", CommunityList: l})
+	case 1:
+		d, err = NewExtCommunitySet(oc.ExtCommunitySet{ExtCommunitySetName: "s", ExtCommunityList: l})
+	case 2:
+		d, err = NewLargeCommunitySet(oc.LargeCommunitySet{LargeCommunitySetName: "s", LargeCommunityList: l})
+	}
+	if err != nil {
+		t.Fatalf("C10 cond oracle: set %q rejected: %v", pats, err)
+	}
+	return d
+}
+
 func c10CondOracle(t *testing.T, o *vOut, g *c10Gen) {
 	r := g.r
 	kind := r.pick(0, 0, 1, 1, 2) // 0 community, 1 ext-community, 2 large community
 	kindName := []string{"community", "ext-community", "large-community"}[kind]
 	optName := []string{"any", "all", "invert"}
 	a := c10reASes[r.intn(len(c10reASes))]
-	np := 2 + r.intn(3)
-	var pats, shapes []string
-	var subs []int
-	for i := 0; i < np; i++ {
+	newPattern := func() string {
 		as := a
 		if r.chance(15) {
 			as = c10reASes[r.intn(len(c10reASes))]
@@ -1822,61 +1857,58 @@ func c10CondOracle(t *testing.T, o *vOut, g *c10Gen) {
 		default:
 			sh, p = g.commPattern(as)
 		}
-		sub := 2
-		if kind == 1 {
-			sub = r.pick(2, 2, 2, 3)
-			pats = append(pats, c10SubNames[sub]+":"+p)
-		} else {
-			pats = append(pats, p)
-		}
-		subs = append(subs, sub)
-		shapes = append(shapes, sh)
 		o.stat("condset_"+kindName+"_"+sh, 1)
+		if kind == 1 {
+			return c10SubNames[r.pick(2, 2, 2, 3)] + ":" + p
+		}
+		return p
 	}
-	// documented regexps
-	docs := make([]*regexp.Regexp, np)
-	for i, p := range pats {
+	np := 2 + r.intn(3)
+	var pats []string
+	for i := 0; i < np; i++ {
+		pats = append(pats, newPattern())
+	}
+	// the real objects, through the configuration path: one reject statement per match option
+	build := func(pats []string) *RoutingPolicy {
+		cfg := &oc.RoutingPolicy{}
+		l := append([]string{}, pats...)
 		switch kind {
 		case 0:
-			docs[i] = c10DocRegexp(p, c10rePlainComm)
+			cfg.DefinedSets.BgpDefinedSets.CommunitySets = []oc.CommunitySet{{CommunitySetName: "s", CommunityList: l}}
 		case 1:
-			docs[i] = c10DocRegexp(p[strings.IndexByte(p, ':')+1:], c10rePlainComm)
+			cfg.DefinedSets.BgpDefinedSets.ExtCommunitySets = []oc.ExtCommunitySet{{ExtCommunitySetName: "s", ExtCommunityList: l}}
 		case 2:
-			docs[i] = c10DocRegexp(p, c10rePlainLarge)
+			cfg.DefinedSets.BgpDefinedSets.LargeCommunitySets = []oc.LargeCommunitySet{{LargeCommunitySetName: "s", LargeCommunityList: l}}
 		}
-	}
-	// the real objects, through the configuration path: one statement per match option
-	cfg := &oc.RoutingPolicy{}
-	switch kind {
-	case 0:
-		cfg.DefinedSets.BgpDefinedSets.CommunitySets = []oc.CommunitySet{{CommunitySetName: "s", CommunityList: pats}}
-	case 1:
-		cfg.DefinedSets.BgpDefinedSets.ExtCommunitySets = []oc.ExtCommunitySet{{ExtCommunitySetName: "s", ExtCommunityList: pats}}
-	case 2:
-		cfg.DefinedSets.BgpDefinedSets.LargeCommunitySets = []oc.LargeCommunitySet{{LargeCommunitySetName: "s", LargeCommunityList: pats}}
-	}
-	ap := map[string]oc.ApplyPolicy{}
-	for opt := 0; opt < 3; opt++ {
-		st := oc.Statement{Name: "st" + optName[opt]}
-		switch kind {
-		case 0:
-			st.Conditions.BgpConditions.MatchCommunitySet = oc.MatchCommunitySet{CommunitySet: "s", MatchSetOptions: c10MatchOpt(opt)}
-		case 1:
-			st.Conditions.BgpConditions.MatchExtCommunitySet = oc.MatchExtCommunitySet{ExtCommunitySet: "s", MatchSetOptions: c10MatchOpt(opt)}
-		case 2:
-			st.Conditions.BgpConditions.MatchLargeCommunitySet = oc.MatchLargeCommunitySet{LargeCommunitySet: "s", MatchSetOptions: c10MatchOpt(opt)}
+		ap := map[string]oc.ApplyPolicy{}
+		for opt := 0; opt < 3; opt++ {
+			st := oc.Statement{Name: "st" + optName[opt]}
+			switch kind {
+			case 0:
+				st.Conditions.BgpConditions.MatchCommunitySet = oc.MatchCommunitySet{CommunitySet: "s", MatchSetOptions: c10MatchOpt(opt)}
+			case 1:
+				st.Conditions.BgpConditions.MatchExtCommunitySet = oc.MatchExtCommunitySet{ExtCommunitySet: "s", MatchSetOptions: c10MatchOpt(opt)}
+			case 2:
+				st.Conditions.BgpConditions.MatchLargeCommunitySet = oc.MatchLargeCommunitySet{LargeCommunitySet: "s", MatchSetOptions: c10MatchOpt(opt)}
+			}
+			st.Actions.RouteDisposition = oc.ROUTE_DISPOSITION_REJECT_ROUTE
+			cfg.PolicyDefinitions = append(cfg.PolicyDefinitions, oc.PolicyDefinition{Name: "p" + optName[opt], Statements: []oc.Statement{st}})
+			ap["peer-"+optName[opt]] = oc.ApplyPolicy{Config: oc.ApplyPolicyConfig{ImportPolicyList: []string{"p" + optName[opt]}, DefaultImportPolicy: oc.DEFAULT_POLICY_TYPE_ACCEPT_ROUTE}}
 		}
-		st.Actions.RouteDisposition = oc.ROUTE_DISPOSITION_REJECT_ROUTE
-		cfg.PolicyDefinitions = append(cfg.PolicyDefinitions, oc.PolicyDefinition{Name: "p" + optName[opt], Statements: []oc.Statement{st}})
-		ap["peer-"+optName[opt]] = oc.ApplyPolicy{Config: oc.ApplyPolicyConfig{ImportPolicyList: []string{"p" + optName[opt]}, DefaultImportPolicy: oc.DEFAULT_POLICY_TYPE_ACCEPT_ROUTE}}
-	}
-	rp := NewRoutingPolicy(slog.New(slog.NewTextHandler(discardWriter{}, nil)))
-	if err := rp.Reset(cfg, ap); err != nil {
-		t.Fatalf("C10 cond oracle: configuration %q rejected: %v", pats, err)
+		rp := NewRoutingPolicy(slog.New(slog.NewTextHandler(discardWriter{}, nil)))
+		if err := rp.Reset(cfg, ap); err != nil {
+			t.Fatalf("C10 cond oracle: configuration %q rejected: %v", pats, err)
+		}
+		return rp
 	}
 	// routes: subsets of communities of the set's AS (and a few of other ASes)
-	nRoutes := 6
-	for k := 0; k < nRoutes; k++ {
+	type condRoute struct {
+		rt       *c10Route
+		stored   *Path
+		rendered []string
+	}
+	var routes []condRoute
+	for k := 0; k < 6; k++ {
 		rt := &c10Route{id: k, nlri: netip.MustParsePrefix("10.8.0.0/16"), src: c10Sources[0], nh: netip.MustParseAddr("10.0.0.1"), hasPath: true, spare: r.pick(0, 2)}
 		org := uint8(0)
 		rt.origin = &org
@@ -1902,52 +1934,479 @@ func c10CondOracle(t *testing.T, o *vOut, g *c10Gen) {
 					e.kind, e.as = 1, 0x0a000001
 				}
 				rt.exts = append(rt.exts, e)
+				rendered = append(rendered, c10ExtValueStr(e))
 			case 2:
 				l := c10Large{as, uint32(r.pick(0, 1, 2, 100)), uint32(r.pick(0, 1, 2, 200))}
 				rt.larges = append(rt.larges, l)
 				rendered = append(rendered, fmt.Sprintf("%d:%d:%d", l.a, l.b, l.c))
 			}
 		}
-		stored := rt.path()
-		// per-pattern documented match
-		per := make([]bool, np)
-		for i := range pats {
+		routes = append(routes, condRoute{rt, rt.path(), rendered})
+	}
+	// verdicts of the live policy on all routes: per route and option "condition,statement"
+	verdicts := func(rp *RoutingPolicy) []string {
+		var out []string
+		for _, cr := range routes {
+			for opt := 0; opt < 3; opt++ {
+				out = append(out, func() (v string) {
+					defer func() {
+						if e := recover(); e != nil {
+							o.fail("condition-panics:"+kindName+":"+optName[opt], map[string]any{"route": c10RouteLine(cr.rt), "panic": fmt.Sprint(e)})
+							v = "pp"
+						}
+					}()
+					c := rp.statementMap["st"+optName[opt]].Conditions[0].Evaluate(cr.stored, nil)
+					res := rp.ApplyPolicy("peer-"+optName[opt], POLICY_DIRECTION_IMPORT, cr.stored, nil)
+					return c10B(c) + c10B(res == nil)
+				}())
+			}
+		}
+		return out
+	}
+	// the documented expectation from the LOGICAL member list
+	check := func(rp *RoutingPolicy, pats []string, stage string) {
+		docs := make([]*regexp.Regexp, len(pats))
+		subs := make([]int, len(pats))
+		for i, p := range pats {
 			switch kind {
-			case 0, 2:
-				for _, s := range rendered {
-					if docs[i].MatchString(s) {
-						per[i] = true
+			case 0:
+				docs[i] = c10DocRegexp(p, c10rePlainComm)
+			case 1:
+				k := strings.IndexByte(p, ':')
+				subs[i] = map[string]int{"rt": 2, "soo": 3}[p[:k]]
+				docs[i] = c10DocRegexp(p[k+1:], c10rePlainComm)
+			case 2:
+				docs[i] = c10DocRegexp(p, c10rePlainLarge)
+			}
+		}
+		got := verdicts(rp)
+		for ri, cr := range routes {
+			per := make([]bool, len(pats))
+			for i := range pats {
+				switch kind {
+				case 0, 2:
+					for _, s := range cr.rendered {
+						if docs[i].MatchString(s) {
+							per[i] = true
+						}
+					}
+				case 1:
+					// "match only with transitive community" (RFC 7153); sub-type as named by the pattern
+					for _, x := range cr.stored.GetExtCommunities() {
+						typ, st := x.GetTypes()
+						if typ < bgp.EC_TYPE_NON_TRANSITIVE_TWO_OCTET_AS_SPECIFIC && int(st) == subs[i] && docs[i].MatchString(x.String()) {
+							per[i] = true
+						}
 					}
 				}
-			case 1:
-				// "match only with transitive community" (RFC 7153); sub-type as named by the pattern
-				for _, x := range stored.GetExtCommunities() {
-					typ, st := x.GetTypes()
-					if typ < bgp.EC_TYPE_NON_TRANSITIVE_TWO_OCTET_AS_SPECIFIC && int(st) == subs[i] && docs[i].MatchString(x.String()) {
-						per[i] = true
-					}
+			}
+			for opt := 0; opt < 3; opt++ {
+				if opt == 1 && len(pats) == 0 {
+					continue // `all` on an empty set: code and documentation differ (theorem all_on_empty_set)
+				}
+				want := c10DocVerdict(opt, per)
+				g := got[ri*3+opt]
+				o.stat(fmt.Sprintf("condset_%s_%s_%s", kindName, optName[opt], c10B(want)), 1)
+				detail := map[string]any{"set_type": kindName, "stage": stage, "patterns": pats, "option": optName[opt],
+					"route_carries": cr.rendered, "route": c10RouteLine(cr.rt), "per_pattern_documented": per, "documented": want}
+				if (g[0] == '1') != want {
+					detail["condition_evaluate"] = g[0] == '1'
+					o.fail("condition-verdict-differs-from-documented:"+kindName+":"+optName[opt], detail)
+				} else if (g[1] == '1') != want {
+					// the statement rejects exactly when the condition holds; the default accepts
+					detail["apply_policy_rejected"] = g[1] == '1'
+					o.fail("condition-verdict-differs-from-documented:"+kindName+":"+optName[opt]+":statement", detail)
 				}
 			}
 		}
-		for opt := 0; opt < 3; opt++ {
-			want := c10DocVerdict(opt, per)
-			real := rp.statementMap["st"+optName[opt]]
-			got := real.Conditions[0].Evaluate(stored, nil)
-			o.stat(fmt.Sprintf("condset_%s_%s_%s", kindName, optName[opt], c10B(want)), 1)
-			detail := map[string]any{"set_type": kindName, "patterns": pats, "shapes": shapes, "option": optName[opt],
-				"route_carries": rendered, "route": c10RouteLine(rt), "per_pattern_documented": per, "documented": want}
-			if got != want {
-				detail["condition_evaluate"] = got
-				o.fail("condition-verdict-differs-from-documented:"+kindName+":"+optName[opt], detail)
-				continue
+	}
+	rp := build(pats)
+	check(rp, pats, "configured")
+	// defined-set edits on the live policy (AddDefinedSet append / replace, DeleteDefinedSet remove):
+	// after every edit the conditions must decide the LOGICAL member list, exactly as a policy
+	// configured up front with that list does
+	nEdits := r.pick(1, 2, 2, 3, 4)
+	for e := 0; e < nEdits; e++ {
+		op := "append"
+		switch {
+		case len(pats) > 0 && r.chance(35):
+			op = "remove"
+		case r.chance(15):
+			op = "replace"
+		}
+		before := append([]string{}, pats...)
+		var arg []string
+		var err error
+		switch op {
+		case "append":
+			for i, m := 0, 1+r.intn(2); i < m; i++ {
+				arg = append(arg, newPattern())
 			}
-			// the statement rejects exactly when the condition holds; the default accepts
-			res := rp.ApplyPolicy("peer-"+optName[opt], POLICY_DIRECTION_IMPORT, stored, nil)
-			if (res == nil) != want {
-				detail["apply_policy_rejected"] = res == nil
-				o.fail("condition-verdict-differs-from-documented:"+kindName+":"+optName[opt]+":statement", detail)
+			err = rp.AddDefinedSet(c10MkRegexSet(t, kind, arg), false)
+			pats = append(pats, arg...)
+		case "replace":
+			for i, m := 0, r.pick(0, 1, 2, 3); i < m; i++ {
+				arg = append(arg, newPattern())
+			}
+			err = rp.AddDefinedSet(c10MkRegexSet(t, kind, arg), true)
+			pats = append([]string{}, arg...)
+		case "remove":
+			switch r.intn(4) {
+			case 0:
+				arg = []string{pats[0]}
+			case 1:
+				arg = []string{pats[len(pats)/2]}
+			case 2:
+				arg = append([]string{}, pats...)
+			default:
+				arg = []string{pats[r.intn(len(pats))]}
+				if r.chance(30) {
+					arg = append(arg, newPattern()) // not a member: no effect
+				}
+			}
+			err = rp.DeleteDefinedSet(c10MkRegexSet(t, kind, arg), false)
+			gone := map[string]bool{}
+			for _, p := range arg {
+				gone[c10NormPattern(kind, p)] = true
+			}
+			var kept, keptBlind []string
+			goneBody := map[string]bool{}
+			for _, p := range arg {
+				n := c10NormPattern(kind, p)
+				goneBody[n[strings.IndexByte(n, ':')+1:]] = true
+			}
+			for _, p := range pats {
+				n := c10NormPattern(kind, p)
+				if !gone[n] {
+					kept = append(kept, p)
+				}
+				if !goneBody[n[strings.IndexByte(n, ':')+1:]] {
+					keptBlind = append(keptBlind, p)
+				}
+			}
+			if kind == 1 && len(kept) != len(keptBlind) && err == nil {
+				// a member of another sub-type has the same pattern text: it must stay
+				if ds, e2 := rp.GetDefinedSet(DEFINED_TYPE_EXT_COMMUNITY, "s"); e2 == nil && len(ds.BgpDefinedSets.ExtCommunitySets[0].ExtCommunityList) == len(keptBlind) {
+					o.fail("ext-set-remove-ignores-subtype", map[string]any{"set": before, "removed": arg,
+						"expected_members": kept, "readback": ds.BgpDefinedSets.ExtCommunitySets[0].ExtCommunityList})
+					kept = keptBlind // go on with what the set now holds
+				}
+			}
+			pats = kept
+		}
+		o.stat("condset_edit_"+op, 1)
+		if err != nil {
+			o.fail("defined-set-edit-rejected:"+kindName+":"+op, map[string]any{"before": before, "arg": arg, "error": err.Error()})
+			return
+		}
+		stage := fmt.Sprintf("after %s %q on %q", op, arg, before)
+		check(rp, pats, stage)
+		// metamorphic: the same verdicts as a policy configured up front with the final list
+		if len(pats) > 0 {
+			up, live := verdicts(build(pats)), verdicts(rp)
+			if !reflect.DeepEqual(up, live) {
+				o.fail("defined-set-edit-differs-from-upfront:"+kindName+":"+op, map[string]any{"stage": stage, "members": pats,
+					"verdicts_live": live, "verdicts_upfront": up})
+			}
+		}
+		// the set reads back as the logical list
+		typ := []DefinedType{DEFINED_TYPE_COMMUNITY, DEFINED_TYPE_EXT_COMMUNITY, DEFINED_TYPE_LARGE_COMMUNITY}[kind]
+		if ds, e2 := rp.GetDefinedSet(typ, "s"); e2 == nil {
+			var gotL []string
+			switch kind {
+			case 0:
+				gotL = ds.BgpDefinedSets.CommunitySets[0].CommunityList
+			case 1:
+				gotL = ds.BgpDefinedSets.ExtCommunitySets[0].ExtCommunityList
+			case 2:
+				gotL = ds.BgpDefinedSets.LargeCommunitySets[0].LargeCommunityList
+			}
+			var wantL []string
+			for _, p := range pats {
+				wantL = append(wantL, c10NormPattern(kind, p))
+			}
+			if len(gotL) != len(wantL) || (len(wantL) > 0 && !reflect.DeepEqual(gotL, wantL)) {
+				o.fail("config-roundtrip:defined-set-after-edit:"+kindName, map[string]any{"stage": stage, "logical": wantL, "readback": gotL})
 			}
 		}
 	}
 	o.stat("condset_scenarios", 1)
+}
+
+
+// ---------- defined-set edits on the modelled set kinds (prefix / neighbor / as-path / exact community types) ----------
+//
+// A policy is configured with one set and one reject statement per match option; the set is then
+// edited on the live RoutingPolicy (AddDefinedSet append / replace, DeleteDefinedSet remove). After
+// every edit the Lean model is given the program with the LOGICAL member list and must predict the
+// condition results and verdicts of the edited policy (correspondence); the edited policy must also
+// agree with one configured up front with the final list and read back as the logical list (oracles).
+
+func c10MemberKeys(s *c10Set) []string {
+	var k []string
+	switch s.kind {
+	case 0:
+		for _, e := range s.pfx {
+			k = append(k, fmt.Sprintf("%s %d %d", e.p, e.lo, e.hi))
+		}
+	case 1:
+		for _, n := range s.nets {
+			k = append(k, n.String())
+		}
+	case 2:
+		for _, m := range s.singles {
+			k = append(k, "s"+c10SingleStr(m))
+		}
+		for _, x := range s.res {
+			k = append(k, "r"+x[0]+x[1])
+		}
+	case 3:
+		for _, c := range s.comms {
+			k = append(k, fmt.Sprint(c))
+		}
+	case 4:
+		for _, e := range s.exts {
+			k = append(k, fmt.Sprintf("%d %d %d", e.sub, e.as, e.la))
+		}
+	case 5:
+		for _, l := range s.larges {
+			k = append(k, fmt.Sprintf("%d %d %d", l.a, l.b, l.c))
+		}
+	}
+	return k
+}
+
+// members of s selected by keep(i-th key)
+func c10FilterSet(s *c10Set, keep func(key string) bool) *c10Set {
+	out := &c10Set{kind: s.kind, id: s.id}
+	keys := c10MemberKeys(s)
+	i := 0
+	next := func() bool { k := keys[i]; i++; return keep(k) }
+	for _, e := range s.pfx {
+		if next() {
+			out.pfx = append(out.pfx, e)
+		}
+	}
+	for _, e := range s.nets {
+		if next() {
+			out.nets = append(out.nets, e)
+		}
+	}
+	for _, e := range s.singles {
+		if next() {
+			out.singles = append(out.singles, e)
+		}
+	}
+	for _, e := range s.res {
+		if next() {
+			out.res = append(out.res, e)
+		}
+	}
+	for _, e := range s.comms {
+		if next() {
+			out.comms = append(out.comms, e)
+		}
+	}
+	for _, e := range s.exts {
+		if next() {
+			out.exts = append(out.exts, e)
+		}
+	}
+	for _, e := range s.larges {
+		if next() {
+			out.larges = append(out.larges, e)
+		}
+	}
+	return out
+}
+
+func c10SetAppend(s, x *c10Set) {
+	s.pfx = append(s.pfx, x.pfx...)
+	s.nets = append(s.nets, x.nets...)
+	s.singles = append(s.singles, x.singles...)
+	s.res = append(s.res, x.res...)
+	s.comms = append(s.comms, x.comms...)
+	s.exts = append(s.exts, x.exts...)
+	s.larges = append(s.larges, x.larges...)
+}
+
+// the DefinedSet object an API caller would hand to AddDefinedSet / DeleteDefinedSet
+func c10MkDefinedSet(t *testing.T, s *c10Set) DefinedSet {
+	cfg, _ := (&c10Prog{sets: []*c10Set{s}}).config()
+	var d DefinedSet
+	var err error
+	switch s.kind {
+	case 0:
+		d, err = NewPrefixSet(cfg.DefinedSets.PrefixSets[0])
+	case 1:
+		d, err = NewNeighborSet(cfg.DefinedSets.NeighborSets[0])
+	case 2:
+		d, err = NewAsPathSet(cfg.DefinedSets.BgpDefinedSets.AsPathSets[0])
+	case 3:
+		d, err = NewCommunitySet(cfg.DefinedSets.BgpDefinedSets.CommunitySets[0])
+	case 4:
+		d, err = NewExtCommunitySet(cfg.DefinedSets.BgpDefinedSets.ExtCommunitySets[0])
+	case 5:
+		d, err = NewLargeCommunitySet(cfg.DefinedSets.BgpDefinedSets.LargeCommunitySets[0])
+	}
+	if err != nil {
+		t.Fatalf("C10 edit scenario: %v", err)
+	}
+	return d
+}
+
+func c10EditScenario(t *testing.T, o *vOut, g *c10Gen) {
+	r := g.r
+	kind := r.intn(6)
+	kindName := []string{"prefix", "neighbor", "as-path", "community", "ext-community", "large-community"}[kind]
+	fam := func(s *c10Set) int {
+		if len(s.pfx) == 0 {
+			return -1
+		}
+		if s.pfx[0].p.Addr().Is6() {
+			return 1
+		}
+		return 0
+	}
+	// a fresh member list of this kind; prefix members of family f (-1 = any)
+	members := func(f int, nonEmpty bool) *c10Set {
+		for {
+			x := g.newSet(kind)
+			if nonEmpty && len(c10MemberKeys(x)) == 0 {
+				continue
+			}
+			if kind == 0 && f >= 0 && fam(x) >= 0 && fam(x) != f {
+				continue
+			}
+			return x
+		}
+	}
+	s := members(-1, true)
+	tag := []int{0, 1, 7, 8, 9, 10}[kind]
+	opts := []int{0, 1, 2}
+	if kind < 2 {
+		opts = []int{0, 2}
+	}
+	p := &c10Prog{sets: []*c10Set{s}}
+	for i, opt := range opts {
+		st := &c10Stmt{id: g.nextSt, conds: []c10Cond{{tag: tag, set: s, opt: opt}}, route: 2}
+		g.nextSt++
+		pol := &c10Pol{id: g.nextPol, stmts: []*c10Stmt{st}}
+		g.nextPol++
+		p.pols = append(p.pols, pol)
+		p.assigns = append(p.assigns, &c10Assign{id: c10PeerIDs[i], dir: POLICY_DIRECTION_IMPORT, slot: i, dflt: 1, pols: []*c10Pol{pol}})
+	}
+	rp, _ := c10Load(t, o, p)
+	var routes []*c10Route
+	for j := 0; j < 6; j++ {
+		routes = append(routes, g.newRoute(j))
+	}
+	x := &c10Opts{id: 0, isNil: true}
+	verdicts := func(rp *RoutingPolicy, ask bool) []string {
+		var out []string
+		for _, rt := range routes {
+			stored := rt.path()
+			for i, pol := range p.pols {
+				st := pol.stmts[0]
+				c := func() (v bool) {
+					defer func() {
+						if e := recover(); e != nil {
+							o.fail("condition-panics:"+kindName, map[string]any{"route": c10RouteLine(rt), "panic": fmt.Sprint(e)})
+						}
+					}()
+					return rp.statementMap[fmt.Sprintf("st%d", st.id)].Conditions[0].Evaluate(stored, nil)
+				}()
+				_, sv := c10Apply(rp, c10PeerIDs[i], POLICY_DIRECTION_IMPORT, stored, nil)
+				if ask {
+					o.ask("c "+c10B(c), "sev %d %d 0", st.id, rt.id)
+					o.ask(sv, "eval %d %d 0", i, rt.id)
+				}
+				out = append(out, c10B(c)+" "+sv)
+			}
+		}
+		return out
+	}
+	nEdits := r.pick(1, 2, 2, 3, 4)
+	for e := 0; e < nEdits; e++ {
+		keys := c10MemberKeys(s)
+		op := "append"
+		switch {
+		case len(keys) > 0 && r.chance(35):
+			op = "remove"
+		case r.chance(15):
+			op = "replace"
+		}
+		before := c10SetLine(s)
+		var arg *c10Set
+		var err error
+		switch op {
+		case "append":
+			arg = members(fam(s), true)
+			arg.id = s.id
+			err = rp.AddDefinedSet(c10MkDefinedSet(t, arg), false)
+			c10SetAppend(s, arg)
+		case "replace":
+			arg = members(-1, kind == 0) // an emptied prefix set keeps its family: not comparable with a configured empty one
+			arg.id = s.id
+			err = rp.AddDefinedSet(c10MkDefinedSet(t, arg), true)
+			*s = *arg
+		case "remove":
+			var which map[string]bool
+			switch r.intn(4) {
+			case 0:
+				which = map[string]bool{keys[0]: true}
+			case 1:
+				which = map[string]bool{keys[len(keys)/2]: true}
+			case 2:
+				which = map[string]bool{}
+				for _, k := range keys {
+					which[k] = true
+				}
+			default:
+				which = map[string]bool{keys[r.intn(len(keys))]: true}
+			}
+			if kind == 0 && len(which) >= len(map[string]bool(func() map[string]bool {
+				m := map[string]bool{}
+				for _, k := range keys {
+					m[k] = true
+				}
+				return m
+			}())) {
+				// never empty a prefix set by removal (it keeps its family, see above)
+				which = map[string]bool{}
+			}
+			arg = c10FilterSet(s, func(k string) bool { return which[k] })
+			if len(c10MemberKeys(arg)) == 0 {
+				continue
+			}
+			err = rp.DeleteDefinedSet(c10MkDefinedSet(t, arg), false)
+			*s = *c10FilterSet(s, func(k string) bool { return !which[k] })
+		}
+		o.stat("edit_"+kindName+"_"+op, 1)
+		if err != nil {
+			o.fail("defined-set-edit-rejected:"+kindName+":"+op, map[string]any{"before": before, "arg": c10SetLine(arg), "error": err.Error()})
+			return
+		}
+		stage := fmt.Sprintf("after %s [%s] on [%s]", op, c10SetLine(arg), before)
+		// correspondence: the model, given the logical list, predicts the edited policy
+		c10Emit(o, p)
+		o.op("%s", c10OptsLine(x))
+		for _, rt := range routes {
+			o.op("%s", c10RouteLine(rt))
+		}
+		live := verdicts(rp, true)
+		// metamorphic: a policy configured up front with the final list
+		rp2, cfg2 := c10Load(t, o, p)
+		if up := verdicts(rp2, false); !reflect.DeepEqual(up, live) {
+			first := 0
+			for first < len(up) && up[first] == live[first] {
+				first++
+			}
+			o.fail("defined-set-edit-differs-from-upfront:"+kindName+":"+op, map[string]any{"stage": stage, "members": c10SetLine(s),
+				"route": c10RouteLine(routes[first/len(p.pols)]), "option": opts[first%len(p.pols)], "live": live[first], "upfront": up[first]})
+		}
+		// read-back of the edited policy = the logical configuration
+		c10CheckReadback(o, rp, cfg2, p)
+	}
+	o.stat("edit_scenarios", 1)
 }
